@@ -47,6 +47,46 @@ func sameCurve(a, b *te.Curve) bool {
 		a.Cofactor.Cmp(b.Cofactor) == 0 && a.F.Eq(a.Base.C[0], b.Base.C[0]) && a.F.Eq(a.Base.C[1], b.Base.C[1])
 }
 
+// curveCofactor derives #E(Fq)/Order without reading the library's Cofactor constant: the only multiple h*Order in
+// the Hasse interval, confirmed by a point P with [h*Order]P = O.
+func curveCofactor(t *te.Curve) (*big.Int, string) {
+	q, l := t.Q, t.Order
+	lo := new(big.Int).Sqrt(new(big.Int).Lsh(q, 2)) // floor(2 sqrt q)
+	lo.Add(lo, one)
+	hi := new(big.Int).Add(q, one)
+	hi.Add(hi, lo)
+	low := new(big.Int).Add(q, one)
+	low.Sub(low, lo)
+	h := new(big.Int).Div(hi, l)
+	n := new(big.Int).Mul(h, l)
+	if n.Cmp(low) < 0 {
+		return nil, "no multiple of Order in the Hasse interval"
+	}
+	if new(big.Int).Sub(n, l).Cmp(low) >= 0 {
+		return nil, "several multiples of Order in the Hasse interval"
+	}
+	rng := gen.New(1, "c12/cofactor/"+t.Name)
+	confirmed := 0
+	for i := 0; i < 8; i++ {
+		P, ok := t.C.LiftY(ofield.El{rng.BigBelow(q)})
+		if !ok {
+			continue
+		}
+		z, ok := t.C.TryMul(P, n)
+		if !ok {
+			continue // exceptional addition on an incomplete curve: this trial says nothing
+		}
+		if !t.C.Eq(z, t.C.Zero()) {
+			return nil, "a point is not killed by the candidate group order"
+		}
+		confirmed++
+	}
+	if confirmed == 0 {
+		return nil, "no trial point could be multiplied by the candidate group order"
+	}
+	return h, ""
+}
+
 func runEdDSA(c *mon.Ctx, d *sigs.EdDSA) {
 	N := d.Name
 	decl, eff := d.Declared(), d.Effective()
@@ -59,7 +99,17 @@ func runEdDSA(c *mon.Ctx, d *sigs.EdDSA) {
 		return
 	}
 	e := &edEnv{c: c, d: d, N: N, T: eff, rng: gen.New(c.Seed, "c12/"+N), nb: d.FrBytes}
-	e.p = osig.NewEd(eff.C, eff.Q, eff.Order, eff.Cofactor, eff.B, d.FrBytes)
+	// the cofactor of the textbook equation is a property of the curve, not a library constant: #E = h*l with
+	// |q+1-h*l| <= 2*sqrt(q) determines h, and one point of order exactly h*l (found by trial) confirms it.
+	cof, why := curveCofactor(eff)
+	if cof == nil {
+		c.Inconclusive("%s: cofactor of the curve could not be determined independently: %s", N, why)
+		return
+	}
+	c.Check("curve-constants", N+"/curve/cofactor-constant-differs-from-group-order", cof.Cmp(eff.Cofactor) == 0, func() string {
+		return fmt.Sprintf("CurveParams.Cofactor=%s but #E(Fq)/Order=%s (Hasse interval + a point of that exact order)", eff.Cofactor, cof)
+	})
+	e.p = osig.NewEd(eff.C, eff.Q, eff.Order, cof, eff.B, d.FrBytes)
 	if (eff.Q.BitLen()+7)/8 != d.FrBytes || eff.Q.BitLen() >= 8*d.FrBytes {
 		c.Inconclusive("%s: no spare bit for the sign in %d bytes (field of %d bits)", N, d.FrBytes, eff.Q.BitLen())
 		return
@@ -686,6 +736,7 @@ func (e *edEnv) crafted(k edKey, h hcfg, m msgCase) {
 	addF("forged/R=(0,-1),sign-bit(non-canonical)", new(big.Int), minus, k.A, 1)
 	// torsion components
 	var tors []oted.Pt
+	halfCof := new(big.Int).Rsh(p.Cof, 1)
 	for tries := 0; tries < 64 && len(tors) < 3; tries++ {
 		P, ok := p.C.LiftY(ofield.El{e.rng.BigBelow(q)})
 		if !ok {
@@ -694,6 +745,12 @@ func (e *edEnv) crafted(k edKey, h hcfg, m msgCase) {
 		T, ok := p.Torsion(P)
 		if !ok || p.C.Eq(T, ident) {
 			continue
+		}
+		// the first one kept has the largest order the cofactor allows for a cyclic 2-part (tries permitting)
+		if len(tors) == 0 && tries < 48 {
+			if z, ok := p.C.TryMul(T, halfCof); !ok || p.C.Eq(z, ident) {
+				continue
+			}
 		}
 		dup := false
 		for _, u := range tors {
